@@ -326,15 +326,18 @@ class XsdWildcard(XsdComponent):
         if w1.target_namespace in w2.namespace and '' in w2.namespace:
             self.namespace.clear()
             self.namespace.add('##any')
-        elif '' not in w2.namespace and w1.target_namespace == w2.target_namespace:
+        elif '' not in w2.namespace and w1.target_namespace not in w2.namespace:
             self.namespace.clear()
             self.namespace.add('##other')
-        elif self.xsd_version == '1.0':
+        elif self.xsd_version == '1.0' and '' in w2.namespace:
             msg = _("not expressible wildcard namespace union: {0!r} V {1!r}:")
             raise XMLSchemaValueError(msg.format(other.namespace, self.namespace))
+        elif '' in w2.namespace:
+            self.namespace.clear()
+            self.not_namespace = {w1.target_namespace}
         else:
             self.namespace.clear()
-            self.not_namespace = {'', w1.target_namespace}
+            self.not_namespace = {''}
 
     def intersection(self, other: Union['XsdAnyElement', 'XsdAnyAttribute']) -> None:
         """Update an XSD wildcard with the intersection of itself and another XSD wildcard."""
